@@ -512,6 +512,19 @@ impl Ctx {
             self.violation(key, || "outcome depends on bytes outside the permitted extent (differs between fill patterns A and B)".into());
         }
     }
+    /// Run `f` under `k` variants of the memory outside the permitted extent; the transcript must be the same in all.
+    pub fn under_variants(&mut self, key: &str, k: usize, f: impl Fn(&mut Ctx, usize)) {
+        let t0 = self.tx;
+        f(self, 0);
+        let ta = self.tx;
+        for i in 1..k {
+            self.tx = t0;
+            f(self, i);
+            if self.tx != ta {
+                self.violation(key, || format!("outcome depends on bytes outside the permitted extent (differs between variant 0 and variant {} of the surrounding memory)", i));
+            }
+        }
+    }
     /// A finding about the harness's own assumptions: never a verdict (exit 2).
     pub fn machinery(&mut self, msg: &str) {
         if self.shadow {
